@@ -995,3 +995,70 @@ package anytype
 //@   requires other-ok: another == nil || okVal(another)
 //@   panics_iff false
 //@   ensures  eq: result == eqS(ego.ptr, another)
+
+// ---------------------------------------------------------------------------
+// Clone (C08): every level of the copy is newly allocated; depth by induction over the
+// interface contract (each nested container is itself the result of copy()).
+// ---------------------------------------------------------------------------
+
+//@ iface field.copy [C08]
+//@   requires isField(self) && okVal(self)
+//@   assigns  nothing
+//@   panics_iff false
+//@   ensures  level: copy1(mark(), self, result)
+//@   ensures  typed: okArg(result) && supp(result)
+//@   ensures  equal: eqS(self, rewrap(result))
+
+//@ func (*atString).copy implements=field.copy
+//@ func (*atBool).copy implements=field.copy
+//@ func (*atInt).copy implements=field.copy
+//@ func (*atFloat).copy implements=field.copy
+//@ func (*atNil).copy implements=field.copy
+
+//@ func (*list).copy implements=field.copy
+//@   let n := len(ego.val)
+//@   plet r := list(vlref(result))
+//@   ensures  new: isVList(result) && fresh(r) && plain(r) && invL(r) && r.ptr == result && fresh(arr(r.val))
+//@   ensures  len: len(r.val) == n
+//@   ensures  elems: forall k int :: 0 <= k && k < n ==> copyF(mark(), old(ego.val[k]), r.val[k]) && eqS(old(ego.val[k]), r.val[k])
+//@   loop 1
+//@     assigns list(list)
+//@     elet a0 := arr(list.val)
+//@     invariant range: 0 <= idx && idx <= n
+//@     invariant hdr: len(list.val) == n && cap(list.val) == n && off(list.val) == 0 && arr(list.val) == a0 && fresh(list) && list.ptr == VList(list) && plain(list) && kindAt(list) == KNEW
+//@     invariant elems: forall k int :: 0 <= k && k < idx ==> isField(list.val[k]) && okVal(list.val[k]) && copyF(mark(), ego.val[k], list.val[k]) && eqS(ego.val[k], list.val[k])
+//@     decreases n - idx
+
+//@ func (*list).Clone [C08 C09]
+//@   requires invL(ego)
+//@   let n := len(ego.val)
+//@   assigns  nothing
+//@   panics_iff false
+//@   plet r := list(vlref(result))
+//@   ensures  new: isVList(result) && fresh(r) && plain(r) && invL(r) && r.ptr == result && fresh(arr(r.val))
+//@   ensures  len: len(r.val) == n
+//@   ensures  elems: forall k int :: 0 <= k && k < n ==> copyF(mark(), old(ego.val[k]), r.val[k]) && eqS(old(ego.val[k]), r.val[k])
+
+//@ func (*object).copy implements=field.copy skip=equal
+//@   plet r := obj(voref(result))
+//@   ensures  new: isVObj(result) && fresh(r) && plain(r) && invO(r) && r.ptr == result && fresh(mapid(r.val))
+//@   ensures  keys: forall k str :: has(r.val, k) == old(has(ego.val, k))
+//@   ensures  vals: forall k str :: old(has(ego.val, k)) ==> copyF(mark(), old(ego.val[k]), r.val[k])
+//@   loop 1
+//@     assigns obj(obj(voref(obj)))
+//@     let r := obj(voref(obj))
+//@     elet m0 := mapid(obj(voref(obj)).val)
+//@     invariant range: 0 <= idx && idx <= ordn && ordn == len(ego.val)
+//@     invariant hdr: isVObj(obj) && fresh(r) && plain(r) && invO(r) && r.ptr == obj && mapid(r.val) == m0 && fresh(m0)
+//@     invariant keys: forall k str :: has(r.val, k) == (has(ego.val, k) && ordpos[k] < idx)
+//@     invariant vals: forall k str :: has(r.val, k) ==> copyF(mark(), ego.val[k], r.val[k])
+//@     decreases ordn - idx
+
+//@ func (*object).Clone [C08 C09]
+//@   requires invO(ego)
+//@   assigns  nothing
+//@   panics_iff false
+//@   plet r := obj(voref(result))
+//@   ensures  new: isVObj(result) && fresh(r) && plain(r) && invO(r) && r.ptr == result && fresh(mapid(r.val))
+//@   ensures  keys: forall k str :: has(r.val, k) == old(has(ego.val, k))
+//@   ensures  vals: forall k str :: old(has(ego.val, k)) ==> copyF(mark(), old(ego.val[k]), r.val[k])
